@@ -148,6 +148,7 @@ def roundtrip(cd):
     try:
         before = json.dumps(deep_fp(cd), sort_keys=True)
         doc = cd.to_json_data()
+        doc_fp0 = json.dumps(deep_fp(doc), sort_keys=True)      # taken now: `doc` itself may alias shared state
         r["pure_to"] = json.dumps(deep_fp(cd), sort_keys=True) == before
     except BaseException as ex:  # noqa
         r["to_exc"] = type(ex).__name__
@@ -173,7 +174,7 @@ def roundtrip(cd):
         _scribble(doc_a)
         doc_b = cd.to_json_data()
         r["alias"] = json.dumps(deep_fp(cd), sort_keys=True) != before or \
-            json.dumps(deep_fp(doc_b), sort_keys=True) != json.dumps(deep_fp(doc), sort_keys=True)
+            json.dumps(deep_fp(doc_b), sort_keys=True) != doc_fp0
     except BaseException as ex:  # noqa
         r["from_exc"] = type(ex).__name__
         return r, doc
